@@ -1392,7 +1392,7 @@ def case_fit(ctx, c):
 
 
 BIG_EVERY = 160   # every 160th model case is a large-population case (25 per quick run, each size >= 6 times)
-FAMILIES = {"model": (case_model, 4000, 72000), "fit": (case_fit, 400, 5000)}
+FAMILIES = {"model": (case_model, 4000, 60000), "fit": (case_fit, 400, 4000)}
 
 
 def run_shard(ctx):
